@@ -2,6 +2,7 @@
 from __future__ import annotations
 
 import ast
+import os
 
 import z3
 
@@ -309,7 +310,7 @@ class Eval:
             if a.t == REAL and not self.spec and getattr(self.ex, "uses_inf", False):
                 # A2: arithmetic on finite floats stays finite (no overflow to +-inf)
                 fin = lambda z: z3.And(z != INF, z != -INF)
-                if getattr(self.ex.spec, "strict_inf", False):
+                if getattr(self.ex.spec, "strict_inf", False) or os.environ.get("PYVC_STRICT_INF"):
                     self.ob("inf-arith", z3.And(fin(a.z), fin(b.z)), n)
                 self.st.pc.append(z3.Implies(z3.And(fin(a.z), fin(b.z)), z3.And(r < INF, r > -INF)))
             return V(a.t, r)
